@@ -16,9 +16,49 @@ from hypercorn.protocol.http_stream import HTTPStream
 from hypercorn.protocol.ws_stream import WSStream
 from hypercorn.typing import ConnectionState
 
-from vf.rt import RecordingLogger
+from vf.rt import NoTracing, RecordingLogger, is_tracing
 from vf.seal import seal
 from vf.stubs.sched import Queue, Sched, TaskGroup, WorkerContext
+
+def native_bytes(x) -> bytes:
+    """A real `bytes` object whatever the tracer made of x."""
+    if is_tracing():
+        from vf.seal import _conc
+
+        with NoTracing():
+            return bytes(_conc(x))
+    return bytes(x)
+
+
+class NativeBuf:
+    """Append-only byte sink that lives outside the tracer."""
+
+    def __init__(self) -> None:
+        with NoTracing():
+            self._b = bytearray()
+
+    def add(self, data) -> None:
+        d = native_bytes(data)
+        with NoTracing():
+            self._b += d
+
+    def take(self) -> bytes:
+        with NoTracing():
+            d = bytes(self._b)
+            del self._b[:]
+        return d
+
+    def peek(self) -> bytes:
+        with NoTracing():
+            return bytes(self._b)
+
+    def __len__(self) -> int:
+        with NoTracing():
+            return len(self._b)
+
+    def __bytes__(self) -> bytes:
+        return self.peek()
+
 
 NOW = 784111777.0  # Sun, 06 Nov 1994 08:49:37 GMT
 
@@ -128,7 +168,7 @@ class Conn:
         self.config = config or make_config()
         self.flavour = flavour
         self.tg = TaskGroup(self.sched, atg._handle if flavour == "asyncio" else ttg._handle)
-        self.out = bytearray()
+        self.out = NativeBuf()
         self.writes: List[bytes] = []
         self.server_closed = False
         self.closed_events = 0
@@ -162,8 +202,9 @@ class Conn:
                 # ConnectionError from the transport
                 await self.proto.handle(Closed())
                 return
-            self.writes.append(bytes(event.data))
-            self.out += event.data
+            d = native_bytes(event.data)
+            self.writes.append(d)
+            self.out.add(d)
         elif isinstance(event, Closed):
             self.closed_events += 1
             if not self.server_closed:
@@ -201,9 +242,7 @@ class Conn:
         self.sched.run()
 
     def take(self) -> bytes:
-        data = bytes(self.out)
-        self.out = bytearray()
-        return data
+        return self.out.take()
 
     @property
     def log(self) -> RecordingLogger:
